@@ -174,8 +174,8 @@ defjvp(
 )
 defjvp(
     anp.linspace,
-    lambda g, ans, start, stop, *args, **kwargs: anp.linspace(g, 0, *args, **kwargs),
-    lambda g, ans, start, stop, *args, **kwargs: anp.linspace(0, g, *args, **kwargs),
+    lambda g, ans, start, stop, *args, **kwargs: match_complex(ans, anp.linspace(g, 0, *args, **kwargs)),
+    lambda g, ans, start, stop, *args, **kwargs: match_complex(ans, anp.linspace(0, g, *args, **kwargs)),
 )
 
 
